@@ -590,6 +590,14 @@ class ExprMixin:
             k = z3.Int(fresh_name("ink"))
             ev = self.from_term(seqs.seq_elem(container, k), container.elem, st)
             return z3.Exists([k], z3.And(0 <= k, k < container.length(), self.val_eq(ev, item, st)))
+        if isinstance(container, VSeq) and container.is_str and seqs.lit_value(container) is None:
+            it0 = self.deref(item, st)
+            if isinstance(it0, VSeq) and it0.is_str:
+                li = seqs.lit_value(it0)
+                if li is not None and len(li) == 1:
+                    # a literal character in a symbolic string
+                    k = z3.Int(fresh_name("ink"))
+                    return z3.Exists([k], z3.And(0 <= k, k < container.length(), seqs.seq_elem(container, k) == ord(li)))
         if isinstance(container, VSeq) and container.is_str:
             lv = seqs.lit_value(container)
             item = self.deref(item, st)
